@@ -28,5 +28,13 @@ path = os.path.join(ROOT, "DESIGN.md")
 s = open(path).read()
 s2 = re.sub(r"(<!-- BUILD-TABLE-BEGIN -->\n).*?(<!-- BUILD-TABLE-END -->)",
             lambda m_: m_.group(1) + table + m_.group(2), s, flags=re.S)
+import json  # noqa: E402
+idx = json.load(open(os.path.join(ROOT, "seeded", "INDEX.json")))
+srows = "\n".join(f"| {e['property']} | `{e['name']}` | {', '.join(e['detected_by']) or 'MISSED'} |"
+                  for e in sorted(idx, key=lambda e: (e["property"], e["name"])))
+s2 = re.sub(r"(<!-- SEED-TABLE-BEGIN -->\n).*?(<!-- SEED-TABLE-END -->)",
+            lambda m_: m_.group(1) + srows + "\n" + m_.group(2), s2, flags=re.S)
 open(path, "w").write(s2)
 print(table)
+print(len(idx), "seeded changes;", sum(1 for e in idx if e["property"] in e["detected_by"]),
+      "reported by their own property's check")
